@@ -539,6 +539,12 @@ def compare(ctx, c, route, res, mtext, with_rest):
     rd, spec = mtext.split(";", 1)
     ic = impl_class(res)
     default_opts = not c.ropts
+    # ---- the tie: implementation vs rdec
+    if rd.startswith("R:"):
+        mv, mrest = rd[2:].rsplit("|", 1)
+        tie = ic == "V" and canon_py(res[1]) == parse_show(mv) and (not with_rest or int(mrest) == res[2])
+    else:
+        tie = ic == rd
     # ---- the statement: implementation vs resolve(decoded value)
     prop_ok = True
     if default_opts:
@@ -552,22 +558,16 @@ def compare(ctx, c, route, res, mtext, with_rest):
         else:                       # the specification itself has no value and no resolution error (undecodable promotion)
             prop_ok = ic in ("EO", "ER")
         if not prop_ok:
+            # every deviation recorded so far is reproduced by the model's rdec; one that is not is something new
+            sig = classify(c, res, spec) + ("" if tie else ":not-reproduced-by-model-rdec")
             ctx.violation("corr:resolve", c.to_json(route), impl=(G.show_py(res[1]) if ic == "V" else "%s %s: %s" % (ic, res[1], res[2]))[:1500],
-                          model=("specification (resolve): " + spec)[:1500], signature=classify(c, res, spec), found_input=True,
+                          model=("specification (resolve): " + spec + " ; model of the code (rdec): " + rd)[:1500], signature=sig, found_input=True,
                           detail="route=%s steps=%s" % (route, c.steps))
-    # ---- the tie: implementation vs rdec
-    if rd.startswith("R:"):
-        mv, mrest = rd[2:].rsplit("|", 1)
-        tie = ic == "V" and canon_py(res[1]) == parse_show(mv) and (not with_rest or int(mrest) == res[2])
-    else:
-        tie = ic == rd
     if not tie and prop_ok:
         ctx.violation("corr:resolve", c.to_json(route), impl=(G.show_py(res[1]) + "|" + str(res[2]) if ic == "V" else "%s %s: %s" % (ic, res[1], res[2]))[:1500],
                       model=("rdec: " + rd)[:1500], signature="C08:model-differs:%s-vs-%s" % (ic, rd[:2]), found_input=False,
                       detail="the implementation differs from the model rdec but agrees with the specification on this case" if default_opts
                       else "reader options: only the tie is compared")
-    elif not tie:
-        ctx.notes["tie_broken_on_property_violations"] = ctx.notes.get("tie_broken_on_property_violations", 0) + 1
 
 
 def run(ctx):
